@@ -702,26 +702,37 @@ Proof.
   - unfold dep_sum. cbn. rewrite msum_insert, Hm. cbn. lia.
 Qed.
 
-Lemma cron_call_ok st m e ext o st' c s :
-  sinv st -> cron_call st m e ext o = (st', c, s) -> sinv st' /\ dep_sum st' = dep_sum st.
+Lemma drop_claims_ok failed : forall ms t,
+  sinv (mkState ms t) ->
+  sinv (mkState (drop_claims ms failed) t) /\
+  dep_sum (mkState (drop_claims ms failed) t) = dep_sum (mkState ms t).
 Proof.
-  intros I. unfold cron_call. destruct (call st m e ext o) as [[st1 c1] s1] eqn:E.
-  destruct (call_ok _ _ _ _ _ _ _ _ I E) as (I1 & D1 & R1).
-  destruct (c1 =? 0).
-  - intros H. inv_ok H. auto.
-  - destruct (miners st !! m) as [mi|] eqn:Hm.
-    + intros H. inv_ok H. apply sinv_set_claim; assumption.
-    + intros H. inv_ok H. auto.
+  induction failed as [|m r IH]; intros ms t I; cbn [drop_claims]; [auto|].
+  destruct (ms !! m) as [mi|] eqn:Hm.
+  - destruct (sinv_set_claim (mkState ms t) m mi false I Hm) as [I1 D1]. cbn in I1, D1.
+    destruct (IH _ _ I1) as [I2 D2]. split; [exact I2|congruence].
+  - apply IH, I.
 Qed.
 
-Lemma tick_ok cbs : forall st e codes sends st' codes' sends',
-  sinv st -> tick st e cbs codes sends = (st', codes', sends') -> sinv st' /\ dep_sum st' = dep_sum st.
+Lemma tick_loop_ok cbs : forall st e codes sends failed st' codes' sends' failed',
+  sinv st -> tick_loop st e cbs codes sends failed = (st', codes', sends', failed') ->
+  sinv st' /\ dep_sum st' = dep_sum st.
 Proof.
-  induction cbs as [|[[m ext] o] cbs IH]; intros st e codes sends st' codes' sends' I; cbn [tick].
+  induction cbs as [|[[m ext] o] cbs IH]; intros st e codes sends failed st' codes' sends' failed' I;
+    cbn [tick_loop].
   - intros H. inv_ok H. auto.
-  - destruct (cron_call st m e ext o) as [[st1 c1] s1] eqn:E.
-    destruct (cron_call_ok _ _ _ _ _ _ _ _ I E) as (I1 & D1).
-    intros H. destruct (IH _ _ _ _ _ _ _ I1 H) as (I2 & D2). split; [exact I2|congruence].
+  - destruct (call st m e ext o) as [[st1 c1] s1] eqn:E.
+    destruct (call_ok _ _ _ _ _ _ _ _ I E) as (I1 & D1 & _).
+    intros H. destruct (IH _ _ _ _ _ _ _ _ _ I1 H) as (I2 & D2). split; [exact I2|congruence].
+Qed.
+
+Lemma tick_ok st e cbs st' codes sends :
+  sinv st -> tick st e cbs = (st', codes, sends) -> sinv st' /\ dep_sum st' = dep_sum st.
+Proof.
+  intros I. unfold tick. destruct (tick_loop st e cbs [] [] []) as [[[st1 c1] s1] f1] eqn:E.
+  destruct (tick_loop_ok _ _ _ _ _ _ _ _ _ _ I E) as (I1 & D1). intros H. inv_ok H.
+  destruct st1 as [ms1 t1]. destruct (drop_claims_ok f1 ms1 t1 I1) as [I2 D2]. cbn in *.
+  split; [exact I2|congruence].
 Qed.
 
 Lemma create_miner_ok st m e d p st' :
@@ -750,8 +761,8 @@ Proof.
     destruct (create_miner st m e d p) eqn:E; cbn; [|exact I]. eapply create_miner_ok; eauto.
   - destruct (call st m e ext o) as [[st' c] s] eqn:E. cbn.
     apply (call_ok _ _ _ _ _ _ _ _ I E).
-  - destruct (tick st e cbs [] []) as [[st' c] s] eqn:E. cbn.
-    apply (tick_ok _ _ _ _ _ _ _ _ I E).
+  - destruct (tick st e cbs) as [[st' c] s] eqn:E. cbn.
+    apply (tick_ok _ _ _ _ _ _ I E).
 Qed.
 
 Theorem reachable_inv ops : forall st, sinv st -> sinv (run st ops).
@@ -803,21 +814,32 @@ Proof.
   intros X. exfalso. apply X. reflexivity.
 Qed.
 
-(* a failed cron callback changes nothing but the miner's claim *)
-Theorem failed_cron_only_drops_claim st m e ext o st' c s :
-  cron_call st m e ext o = (st', c, s) -> c <> 0 ->
-  total st' = total st /\
-  forall k, miners st' !! k =
-    if decide (k = m) then option_map (fun mi => set_claim mi false) (miners st !! m) else miners st !! k.
+(* after the callbacks of a tick, the power actor only clears the claim bit of the miners whose callback
+   failed; nothing else of any miner changes *)
+Lemma set_claim_idem mi : set_claim (set_claim mi false) false = set_claim mi false.
+Proof. destruct mi; reflexivity. Qed.
+
+Theorem failed_cron_only_drops_claim failed : forall ms k,
+  drop_claims ms failed !! k =
+  match ms !! k with
+  | Some mi => Some (if bool_decide (k ∈ failed) then set_claim mi false else mi)
+  | None => None
+  end.
 Proof.
-  unfold cron_call. destruct (call st m e ext o) as [[st1 c1] s1] eqn:E.
-  destruct (c1 =? 0) eqn:Ec; zb.
-  - intros H. inv_ok H. intros X. contradiction.
-  - destruct (miners st !! m) as [mi|] eqn:Hm; intros H; inv_ok H; intros _; cbn.
-    + split; [reflexivity|]. intros k. destruct (decide (k = m)) as [->|Hne].
-      * rewrite lookup_insert. reflexivity.
-      * rewrite lookup_insert_ne by congruence. reflexivity.
-    + split; [reflexivity|]. intros k. destruct (decide (k = m)) as [->|Hne]; [rewrite Hm|]; reflexivity.
+  induction failed as [|m r IH]; intros ms k; cbn [drop_claims].
+  - destruct (ms !! k); [|reflexivity]. rewrite bool_decide_eq_false_2; [reflexivity|]. apply not_elem_of_nil.
+  - rewrite IH. destruct (decide (k = m)) as [->|Hne].
+    + destruct (ms !! m) as [mi|] eqn:Hm.
+      * rewrite lookup_insert. rewrite (bool_decide_eq_true_2 (m ∈ m :: r)) by apply elem_of_list_here.
+        destruct (bool_decide (m ∈ r)); [rewrite set_claim_idem|]; reflexivity.
+      * rewrite Hm. reflexivity.
+    + assert (E : (match ms !! m with Some mi => <[m := set_claim mi false]> ms | None => ms end) !! k = ms !! k).
+      { destruct (ms !! m); [rewrite lookup_insert_ne by congruence|]; reflexivity. }
+      rewrite E. destruct (ms !! k); [|reflexivity].
+      destruct (decide (k ∈ r)) as [Hr|Hr].
+      * rewrite !bool_decide_eq_true_2; [reflexivity|apply elem_of_list_further, Hr|exact Hr].
+      * rewrite !bool_decide_eq_false_2; [reflexivity| |exact Hr].
+        intros Hin. apply elem_of_cons in Hin. destruct Hin; [congruence|contradiction].
 Qed.
 
 (* --- pledge_update_never_blocks: the true variants --- *)
@@ -863,21 +885,23 @@ Proof.
   apply (others_nonneg st m mi); assumption.
 Qed.
 
-Lemma cron_call_sends st m e ext o : snd (cron_call st m e ext o) = snd (call st m e ext o).
+Lemma tick_loop_not_blocked cbs : forall st e codes sends failed,
+  sinv st -> dep_sum st = 0 -> Forall ok20 sends ->
+  Forall ok20 (snd (fst (tick_loop st e cbs codes sends failed))).
 Proof.
-  unfold cron_call. destruct (call st m e ext o) as [[st1 c1] s1]. cbn.
-  destruct (c1 =? 0); [reflexivity|]. destruct (miners st !! m); reflexivity.
+  induction cbs as [|[[m ext] o] cbs IH]; intros st e codes sends failed I Hd Hs; cbn [tick_loop]; [exact Hs|].
+  pose proof (call_not_blocked_nodep st m e ext o I Hd) as Hn.
+  destruct (call st m e ext o) as [[st1 c1] s1] eqn:E. cbn in Hn.
+  destruct (call_ok _ _ _ _ _ _ _ _ I E) as (I1 & D1 & _).
+  apply IH; [exact I1|congruence|]. apply Forall_app. split; assumption.
 Qed.
 
-Lemma tick_not_blocked cbs : forall st e codes sends,
-  sinv st -> dep_sum st = 0 -> Forall ok20 sends -> Forall ok20 (snd (tick st e cbs codes sends)).
+Lemma tick_not_blocked st e cbs :
+  sinv st -> dep_sum st = 0 -> Forall ok20 (snd (tick st e cbs)).
 Proof.
-  induction cbs as [|[[m ext] o] cbs IH]; intros st e codes sends I Hd Hs; cbn [tick]; [exact Hs|].
-  pose proof (cron_call_sends st m e ext o) as Es.
-  pose proof (call_not_blocked_nodep st m e ext o I Hd) as Hn.
-  destruct (cron_call st m e ext o) as [[st1 c1] s1] eqn:E. cbn in Es.
-  destruct (cron_call_ok _ _ _ _ _ _ _ _ I E) as (I1 & D1).
-  apply IH; [exact I1|congruence|]. apply Forall_app. split; [exact Hs|]. rewrite Es. exact Hn.
+  intros I Hd. unfold tick.
+  pose proof (tick_loop_not_blocked cbs st e [] [] [] I Hd ltac:(constructor)) as H.
+  destruct (tick_loop st e cbs [] [] []) as [[[st1 c1] s1] f1]. exact H.
 Qed.
 
 Theorem never_blocks_without_creation_deposit ops o :
@@ -888,7 +912,7 @@ Proof.
   - destruct (negb (ext =? 0)); [constructor|]. destruct (create_miner _ m e d p); constructor.
   - pose proof (call_not_blocked_nodep _ m e ext o I Hd) as H.
     destruct (call _ m e ext o) as [[st' c] s]. exact H.
-  - apply tick_not_blocked; [exact I|exact Hd|constructor].
+  - apply tick_not_blocked; [exact I|exact Hd].
 Qed.
 
 Theorem never_blocks_when_others_cover ops m e ext o mi :
@@ -899,4 +923,30 @@ Proof.
   intros Hm Hc. apply blocked_false_iff. pose proof (reachable_inv ops _ sinv_init) as I. cbn [step].
   pose proof (call_not_blocked _ m e ext o I) as H.
   destruct (call _ m e ext o) as [[st' c] s]. apply H. intros mi' Hm'. rewrite Hm in Hm'. inv_ok Hm'. exact Hc.
+Qed.
+
+(* pledge is released when an early termination is PROCESSED, not when it is queued *)
+Theorem queued_termination_keeps_pledge m l m' :
+  move_early m l = Ok m' ->
+  ip m' = ip m /\ locked m' = locked m /\
+  zsum (sectors m') + zsum (awaiting m') = zsum (sectors m) + zsum (awaiting m).
+Proof.
+  intros H. apply move_early_ok in H. destruct H as (S & A & -> & S1). cbn. auto.
+Qed.
+
+Theorem processed_termination_releases_pledge m e pr t m' d :
+  minv m -> tx_process_early m e pr t = Ok (m', d) ->
+  ip m' = ip m - (zsum (awaiting m) - zsum (awaiting m')) /\ sectors m' = sectors m /\
+  d = (ip m' - ip m) + (locked m' - locked m).
+Proof.
+  intros I. unfold tx_process_early. destruct pr as [|x pr].
+  - intros H. inv_ok H. repeat split; lia.
+  - intros H.
+    apply bind_ok in H. destruct H as ([m1 tot] & B1 & H).
+    apply bind_ok in H. destruct H as (m2 & B2 & H).
+    apply bind_ok in H. destruct H as ([m3 tu] & B3 & H). inv_ok H.
+    apply pop_each_ok in B1. destruct B1 as (A & -> & S1).
+    apply add_ip_ok in B2. destruct B2 as (-> & S2).
+    apply m_unlock_both_ok in B3; [|apply I|apply I]. destruct B3 as (t1 & l1 & -> & L1 & L2 & L3).
+    cbn in *. repeat split; lia.
 Qed.
